@@ -38,5 +38,8 @@ if [ $NEEDCLI = 1 ]; then
   export QVMON_CLI=$M/target-cli/release/quizx
 fi
 for id in "$@"; do
-  $M/target/release/qvmon $id --tier ${MUT_TIER:-quick} --seed ${VERIF_SEED:-1} 2>&1 | grep -E "VIOLATION|signature|HARNESS|seed=" | head -${MUT_LINES:-8}
+  # the summary line first (a run with hundreds of distinct signatures must not push it out of the head)
+  $M/target/release/qvmon $id --tier ${MUT_TIER:-quick} --seed ${VERIF_SEED:-1} > $M/out/last-$id.log 2>&1
+  grep -E "VIOLATION|signature|HARNESS" $M/out/last-$id.log | head -${MUT_LINES:-8}
+  grep -E "^$id (quick|thorough) seed=" $M/out/last-$id.log | tail -n 1
 done
